@@ -31,6 +31,8 @@ LOCAL C15Want(e) ==        \* expected encoded outcome, or <<-1>> when the class
        [] e.cls = "shr"   -> IF e.s >= w THEN C15None ELSE C15Ok(Shr(e.a, e.s))
        [] e.cls = "wshl"  -> IF e.s >= w THEN C15Ok(Zero) ELSE C15Ok(Mod2k(Shl(e.a, e.s), w))
        [] e.cls = "bits"  -> C15Ok(FromInt(BitLen(e.a)))
+       [] e.cls = "konst" -> C15Ok(e.a)                                   \* zero/one/limb "like" another value
+       [] e.cls = "log2"  -> C15Ok(FromInt(BitLen(e.a) - 1))               \* floor(log2(a)), a = BITS
        [] e.cls = "tz"    -> C15Ok(FromInt(IF e.a = Zero THEN w ELSE TrailingZeros(e.a)))
        [] e.cls = "sqrt"  -> C15Ok(ISqrt(e.a))
        [] e.cls = "gcd"   -> C15Ok(Gcd(e.a, e.b))
